@@ -21,7 +21,16 @@ ASSUMPTIONS = ["data values are abstracted away in the model (threshold/dropna t
                "an exception produces no object and is therefore outside C04's statement: exceptions of unmodelled calls are counted per call (distribution exception:<family>/<call>) and the "
                "other calls of the same operation are still checked; an exception of a MODELLED operation is a disagreement with the model",
                "IntervalSet([], []).time_span() raises IndexError while the model returns the empty set: the call is not made on an empty set (counted as skipped:time_span_of_empty_set)",
-               "the order of a TsGroup's keys is C12's clause and is not part of this oracle"]
+               "the order of a TsGroup's keys is C12's clause and is not part of this oracle",
+               "argument forms: a numpy float32 SCALAR given as an instant (get, bin_average, find_support) is rounded by TsIndex.format_timestamps in float32 arithmetic (a few ns off even when "
+               "the value is exact in float32); such scalars are passed only to calls whose result is checked by the well-formedness oracle alone (no model / reference comparison); float32 "
+               "ARRAYS are converted to float64 first by every constructor and are compared with the model; count(bin_size=<numpy integer / float32>) raises TypeError (documented: float or int)",
+               "argument forms: unit changes (ms / us) and integer / float32 time arrays are generated only for instants on the dyadic lattice 2^-9 s below 2^20 s, where the scaling and the "
+               "library's division are exact, so that 'the same instants' is decidable; off-lattice objects of the store are passed in seconds only",
+               "reference comparison (distribution form_reference_compared): a call in a drawn form whose most-common-form twin is known is required to produce the same timestamps and support; "
+               "a difference is reported as a disagreement (correspondence), never as a violation of C04's statement"]
+
+FORM_HID0 = 10 ** 6        # history ids of the argument-form histories (disjoint from the canonical ones)
 
 
 def _nap():
@@ -34,6 +43,8 @@ def run(res, tier, seed):
     warnings.simplefilter("ignore")
     nh = 500 if tier == "quick" else 5000
     length = 12 if tier == "quick" else 40
+    nf = 350 if tier == "quick" else 1200
+    flength = 12 if tier == "quick" else 30
     res.rule = ("histories: %d seeded random operation sequences of length %d over a store of live objects (16 modelled operation kinds: constructors incl. malformed interval input, "
                 "restrict, get, count, value_from, threshold, dropna - also on empty series -, support, union/intersect/set_diff, time_span, drop_short, merge_close) executed on the "
                 "implementation and on the extracted state machine, abstract states (timestamps, support) compared after EVERY step; %d unmodelled operation families (each a list of "
@@ -43,55 +54,92 @@ def run(res, tier, seed):
                 "groups are built with an explicit and with the default (union) support. The well-formedness statement (sorted, one row per timestamp, inside a canonical support, "
                 "rate = n / duration, non-empty group members on the group support) is evaluated on every object produced (count: objects_checked). "
                 "non-trivial = a step whose result has >= 1 sample or interval; distinct = (history id, step)" % (nh, length, len(set(H.UNMODELLED))))
-    lines, runs = [], []
+    res.rule += (" || ARGUMENT FORMS: %d further histories of length %d in which every call is made with its arguments in drawn forms (second generator derived from the seed), the modelled "
+                 "operations still compared with the extracted model after every step, %d form families interleaved with the %d others. "
+                 "(1) data dtype: float64 / float32 / int64 / int32 / int16 / int8 / uint8..uint64 / bool, rows of NaN, +inf, -inf, both infinities in one row, zeros, all-equal, data as a Python list, for the "
+                 "receiver of every operation and the operands (threshold masks in integer / bool dtypes, dropna on rows holding infinities, convolve of integer signals with fractional / float32 / 2-d / bool kernels, "
+                 "Python and numpy scalar operands of every arithmetic operator). "
+                 "(2) time arguments: ndarray, strided view, list, tuple, pandas Index / Series (Tsd(Series), TsdFrame(DataFrame)), the TsIndex of another live object, float32 and integer arrays (signed, unsigned, 8..64 bit, "
+                 "for timestamps AND for interval starts / ends, unsorted included), Python / numpy scalars (int instead of float, numpy integers, float64; float32 without reference). "
+                 "(3) every public parameter positionally and by keyword (the cut between positional and keyword arguments is drawn), optional parameters at the default, at an explicit None and at every other value, "
+                 "flags combined (count dtype x unit x ep, convolve trim x ep, smooth windowsize x norm x size_factor x unit, merge_group reset_index x reset_time_support x ignore_metadata with THREE operands, "
+                 "dropna update_time_support, value_from mode, interpolate left x right, TsGroup time_support x time_units x bypass_check x metadata); strings in another letter case must raise or give a well-formed object. "
+                 "(4) units s / ms / us for every unit-accepting call (constructors, IntervalSet, get, get_slice, count, bin_average, smooth, drop_short/long, merge_close, split, perievent, TsGroup raw members, group count / get). "
+                 "(5) placement: whole histories translated to negative times, across 0 and by 1e5 s; a family re-runs the core operations on translated copies and compares the result translated back. "
+                 "(6) degenerate: empty group in the three units and every operation on it, empty series of the four classes, groups with an empty member, keys strings / floats / numpy integers / unsorted / not 0..n-1, "
+                 "groups from lists, one-member groups, interval sets with 0 / 1 / many intervals and metadata. "
+                 "(7) classes: the receiver of every family and of every modelled operation is re-cast to Ts / Tsd / TsdFrame / TsdTensor; TsdFrame columns strings, integers not 0..n-1, unsorted, floats, with metadata; "
+                 "IntervalSets with metadata, from DataFrame, two-column array, pairs, Series. "
+                 "(8) multi-step: drawn chains of 2-4 operations (restrict / slice / get / arithmetic / numpy / count / bin_average / dropna / convolve / interpolate / value_from / concatenate) with every intermediate object "
+                 "checked, save + load_file then the operations, the same live object as both operands, operands sharing memory, TsGroup(bypass_check=True) on members that carry the support. "
+                 "Distribution: form:<label> counts every drawn form" % (nf, flength, len(set(H.FORM_FAMILIES)), len(set(H.UNMODELLED))))
     opk = {}
-    for hid in range(nh):
-        r = H.run_history(nap, seed, hid, length, 0.5)
-        runs.append(r)
-        lines.append("history\t" + "\t".join(r["codes"]))
-        for c in r["codes"]:
-            opk[c.split()[0]] = opk.get(c.split()[0], 0) + 1
-        for u in r["unmodelled"]:
-            res.count("unmodelled=" + u)
-        for i in r["unmodelled_inputs"]:
-            if i:
-                res.count("unmodelled_input_class=" + i["cls"])
-                res.count("unmodelled_input_len=" + i["len"])
-                res.count("unmodelled_input_support_intervals=" + i["support"])
-                if i["dup"]:
-                    res.count("unmodelled_input_with_duplicate_timestamps")
-        for sk in r["skipped"]:
-            res.count("skipped:" + sk)
-        res.count("objects_checked", r["n_checked"])
-    out = C.run_model(lines)
-    for hid, (r, mo) in enumerate(zip(runs, out)):
-        mods = [H.norm_abs(x) for x in mo.split("|")] if mo else []
-        for step, a in enumerate(r["abstracts"]):
-            res.case((hid, step), nontrivial=len(a.split()) > 2)
-            if step < len(mods) and mods[step] != a:
-                res.disagreements.append({"op": r["codes"][step], "input": {"history": r["codes"][: step + 1], "seed": [seed, hid]}, "impl": a, "model": mods[step]})
-                break
-        for (label, w, code), k in zip(r["wf"], r["wf_keys"]):
-            # key: the call (op = the library function / sub-call, family = the operation family of the history, variant), the clause of the statement that fails, the class
-            # of the result, and the precise trigger of the known zero-span quirk: the RESULT is a non-empty series whose timestamps all coincide under an EMPTY support
-            # (zero_span_default_support) and the INPUT of the call already had coinciding timestamps (zero_span_input; None for modelled operations)
-            key = dict(k)
-            key["part"] = "well-formed"
-            res.violations.append({"key": key, "what": "an object reachable through the API is not well formed (%s, a %s): %s" % (label, k["result"], w),
-                                   "input": {"history": r["codes"], "seed": [seed, hid], "at": label}})
-        for label, e in r["exc"]:
-            # an exception produces no object: outside C04's statement (well-formedness of what IS produced); counted for the record, per call
-            res.count("exception:" + label.split(":", 1)[-1])
-            if label.startswith("op"):
-                res.disagreements.append({"op": label, "what": "a modelled operation raised on the implementation: " + e,
-                                          "input": {"history": r["codes"], "seed": [seed, hid]}})
-        if hid < 2:
-            res.sample({"history": r["codes"], "states": r["abstracts"][:6]})
+
+    def batch(hids, blen, unm, forms):
+        lines, runs = [], []
+        for hid in hids:
+            r = H.run_history(nap, seed, hid, blen, unm, forms=forms)
+            runs.append(r)
+            lines.append("history\t" + "\t".join(r["codes"]))
+            for c in r["codes"]:
+                opk[c.split()[0]] = opk.get(c.split()[0], 0) + 1
+            for u in r["unmodelled"]:
+                res.count("unmodelled=" + u)
+            for i in r["unmodelled_inputs"]:
+                if i:
+                    res.count("unmodelled_input_class=" + i["cls"])
+                    res.count("unmodelled_input_len=" + i["len"])
+                    res.count("unmodelled_input_support_intervals=" + i["support"])
+                    if i["dup"]:
+                        res.count("unmodelled_input_with_duplicate_timestamps")
+            for sk in r["skipped"]:
+                res.count("skipped:" + sk)
+            for f in r["forms"]:
+                res.count("form:" + f)
+            res.count("objects_checked", r["n_checked"])
+            if forms:
+                res.count("objects_checked_in_form_histories", r["n_checked"])
+                res.count("form_reference_compared", r["n_ref"])
+        out = C.run_model(lines)
+        for hid, r, mo in zip(hids, runs, out):
+            inp = {"history": r["codes"], "seed": [seed, hid], "forms": bool(forms), "length": blen}
+            mods = [H.norm_abs(x) for x in mo.split("|")] if mo else []
+            for step, a in enumerate(r["abstracts"]):
+                res.case((hid, step), nontrivial=len(a.split()) > 2)
+                if step < len(mods) and mods[step] != a:
+                    res.disagreements.append({"op": r["codes"][step], "input": dict(inp, history=r["codes"][: step + 1]), "impl": a, "model": mods[step],
+                                              "forms_drawn": r["forms"][-40:] if forms else None})
+                    break
+            for (label, w, code), k in zip(r["wf"], r["wf_keys"]):
+                # key: the call (op = the library function / sub-call, family = the operation family of the history, variant), the clause of the statement that fails, the class
+                # of the result, and the precise trigger of the known zero-span quirk: the RESULT is a non-empty series whose timestamps all coincide under an EMPTY support
+                # (zero_span_default_support) and the INPUT of the call already had coinciding timestamps (zero_span_input; None for modelled operations);
+                # argument_forms tells that the call was made in a history whose arguments are given in drawn forms
+                key = dict(k)
+                key["part"] = "well-formed"
+                key["argument_forms"] = bool(forms)
+                res.violations.append({"key": key, "what": "an object reachable through the API is not well formed (%s, a %s): %s" % (label, k["result"], w),
+                                       "input": dict(inp, at=label)})
+            for label, e in r["exc"]:
+                # an exception produces no object: outside C04's statement (well-formedness of what IS produced); counted for the record, per call
+                res.count("exception:" + label.split(":", 1)[-1])
+                if label.startswith("op"):
+                    res.disagreements.append({"op": label, "what": "a modelled operation raised on the implementation: " + e, "input": inp})
+            for label, got, want in r["form_diff"]:
+                # the same call in another FORM of its arguments gives other timestamps / another support than in the most common form
+                res.disagreements.append({"op": label, "what": "a call with its arguments in another accepted form (unit, dtype, container, keyword / positional) differs from the same call in the "
+                                          "most common form", "input": dict(inp, at=label), "impl": got, "reference_form": want})
+            if hid % FORM_HID0 < 2:
+                res.sample({"history": r["codes"], "states": r["abstracts"][:6], "forms": r["forms"][:30]} if forms else {"history": r["codes"], "states": r["abstracts"][:6]})
+
+    batch(list(range(nh)), length, 0.5, False)
+    batch([FORM_HID0 + i for i in range(nf)], flength, 0.6, True)
     for k, v in opk.items():
         res.count("op=" + k, v)
     res.extra["ops_modelled"] = sorted(opk)
     res.extra["ops_unmodelled"] = H.UNMODELLED
-    res.traces = nh
+    res.extra["form_families"] = H.FORM_FAMILIES
+    res.traces = nh + nf
 
 
 def search(res, seed):
@@ -107,9 +155,11 @@ def replay(payload):
     inp = v.get("input", {})
     seed, hid = inp.get("seed", [0, 0])
     n = len(inp.get("history", [])) or 12
-    r = H.run_history(nap, seed, hid, max(n, 12), 0.5)
+    forms = bool(inp.get("forms", hid >= FORM_HID0))
+    r = H.run_history(nap, seed, hid, inp.get("length") or max(n, 12), 0.6 if forms else 0.5, forms=forms)
     print("history", r["codes"])
+    print("reference-form differences:", r["form_diff"])
     print("well-formedness failures:", r["wf"])
     print("well-formedness failure keys:", r["wf_keys"])
     print("exceptions (no object produced; only those of modelled operations count):", r["exc"])
-    return 1 if r["wf"] or any(label.startswith("op") for label, _ in r["exc"]) else 0
+    return 1 if r["wf"] or r["form_diff"] or any(label.startswith("op") for label, _ in r["exc"]) else 0
